@@ -31,6 +31,8 @@ type Program struct {
 	Fset      *token.FileSet
 	Pkgs      map[string]*packages.Package
 	Contracts map[string]*Contract // pkgpath.Func
+	AContracts map[string]*Contract // abstract (Engine B) contracts, separate name space
+	AOrder    []string
 	Order     []string             // contract keys in file order
 	Funcs     map[string]*FuncInfo
 	SpecFuncs map[string]*SpecFunc // pkgpath.name
@@ -104,7 +106,7 @@ func LoadProgram(repo string, patterns ...string) (*Program, error) {
 	if err != nil {
 		return nil, err
 	}
-	p := &Program{Fset: fset, Pkgs: map[string]*packages.Package{}, Contracts: map[string]*Contract{},
+	p := &Program{Fset: fset, Pkgs: map[string]*packages.Package{}, Contracts: map[string]*Contract{}, AContracts: map[string]*Contract{},
 		Funcs: map[string]*FuncInfo{}, SpecFuncs: map[string]*SpecFunc{}, RepoDir: repo, Owned: map[string][]string{}}
 	var errs []string
 	packages.Visit(pkgs, nil, func(pk *packages.Package) {
@@ -135,6 +137,14 @@ func LoadProgram(repo string, patterns ...string) (*Program, error) {
 						continue
 					}
 					k := pk.PkgPath + "." + c.Func
+					if isAbstract(c) {
+						if _, dup := p.AContracts[k]; dup {
+							errs = append(errs, fmt.Sprintf("%s: duplicate abstract contract for %s", c.File, k))
+						}
+						p.AContracts[k] = c
+						p.AOrder = append(p.AOrder, k)
+						continue
+					}
 					if _, dup := p.Contracts[k]; dup {
 						errs = append(errs, fmt.Sprintf("%s: duplicate contract for %s", c.File, k))
 					}
